@@ -156,7 +156,7 @@ func (m *fmdns) QRCodeText() string                  { return "" }
 func (m *fmdns) RequestMdnsEntries()                 {}
 
 func freePort() int {
-	l, err := net.Listen("tcp", "127.0.0.1:0")
+	l, err := vh.Listen("127.0.0.1:0")
 	if err != nil {
 		panic(err)
 	}
